@@ -52,6 +52,13 @@ StaleCursorNext == CallAdd \/ CallAddBig \/ CallRemove \/ CallRename \/ CodeStep
                    \/ FlushRelocate \/ CloseRelocate \/ CompactKeepsCursor
 StaleCursorSpec == HInit /\ [][StaleCursorNext]_hvars
 CodeNowSpec == HInit /\ [][CodeNowNext]_hvars
+\* hypothetical: compact() that skips entries of stored size 0 loses the files whose content is empty (must violate
+\* AtomicRefines: _codeJ.cfg); for the design and the as-coded machine the empty content is a content value like any other
+\* (their content tokens are opaque)
+CallAddEmpty == \E n \in UNames, rep \in BOOLEAN, enc \in {"none", "enc"} : BeginAdd(n, EmptyTok, rep, enc, "none", FALSE)
+SkipEmptyNext == CallAdd \/ CallAddEmpty \/ CallRemove \/ CallRename \/ CodeSteps \/ Open \/ FlushClean \/ CloseClean
+                 \/ FlushRelocate \/ CloseRelocate \/ CompactSkipsEmpty
+SkipEmptySpec == HInit /\ [][SkipEmptyNext]_hvars
 \* ... and restricted to what is believed correct now (V1/V2, listfile present, no encryption, no name
 \* spelled inside another): this machine must satisfy everything the design does (_codeOK.cfg)
 NoSub == [n \in UNames |-> {}]
